@@ -113,6 +113,17 @@ theorem step_ent (s : State) (op : Op) (j : Nat) (e : Ent) (h : s.ents[j]? = som
                     refine .touched v hauto rfl ?_ hv
                     simp only [Op.target, hal, htouch, hej]
                   · exact ⟨e, by simp [hej], .same⟩
+              · rename_i htouch
+                split
+                · exact ⟨e, h, .same⟩
+                · rename_i v hv
+                  simp only [getElem?_setUpdated, h, Option.map_some]
+                  by_cases hej : e0 = j
+                  · subst hej
+                    refine ⟨{ e with updated := some v }, by simp, ?_⟩
+                    refine .touched v hauto rfl ?_ hv
+                    simp only [Op.target, hal, htouch]
+                  · exact ⟨e, by simp [hej], .same⟩
             · exact ⟨e, h, .same⟩
   | forceCreated e0 t =>
     simp only [step]
